@@ -233,6 +233,90 @@ func (p *GoProg) splitNewCompoundConds(name string, fd *ast.FuncDecl) {
 			return true
 		})
 	}
+	// return A && B (the only result, not a reference spelling)  →  if A { return B }; return false
+	// return A || B                                              →  if A { return true }; return B
+	// (the returned conjunction then goes through the same splitting as a condition would)
+	boolIdent := func(name string, pos token.Pos) ast.Expr {
+		id := &ast.Ident{Name: name, NamePos: pos}
+		if o := types.Universe.Lookup(name); o != nil {
+			p.Info.Uses[id] = o
+			p.Info.Types[id] = types.TypeAndValue{Type: types.Typ[types.Bool]}
+		}
+		return id
+	}
+	var unret func(list []ast.Stmt) []ast.Stmt
+	unret = func(list []ast.Stmt) []ast.Stmt {
+		var out []ast.Stmt
+		for _, st := range list {
+			r, ok := st.(*ast.ReturnStmt)
+			if !ok || len(r.Results) != 1 {
+				out = append(out, st)
+				continue
+			}
+			c := isCompound(r.Results[0])
+			if c == nil || refKey[condKey(p.Str(ast.Unparen(r.Results[0])))] {
+				out = append(out, st)
+				continue
+			}
+			// only a leading length/capacity test is peeled off: that is the operand which guards the evaluation of
+			// the rest and which the reference code writes as an if of its own
+			{
+				var flat func(e ast.Expr) []ast.Expr
+				flat = func(e ast.Expr) []ast.Expr {
+					if b, ok := ast.Unparen(e).(*ast.BinaryExpr); ok && b.Op == c.Op {
+						return append(flat(b.X), flat(b.Y)...)
+					}
+					return []ast.Expr{e}
+				}
+				ops := flat(r.Results[0])
+				isLenTest := false
+				ast.Inspect(ops[0], func(n ast.Node) bool {
+					if call, ok := n.(*ast.CallExpr); ok {
+						if id, ok := call.Fun.(*ast.Ident); ok && (id.Name == "len" || id.Name == "cap") && p.Info.Uses[id] != nil && p.Info.Uses[id].Pkg() == nil {
+							isLenTest = true
+						}
+					}
+					return true
+				})
+				if !isLenTest || len(ops) < 2 {
+					out = append(out, st)
+					continue
+				}
+				rest := ast.Unparen(ops[1])
+				if len(ops) > 2 {
+					rest = ops[1]
+				}
+				for _, o := range ops[2:] {
+					nb := &ast.BinaryExpr{X: rest, Op: c.Op, OpPos: o.Pos(), Y: o}
+					if tv, ok := p.Info.Types[r.Results[0]]; ok {
+						p.Info.Types[nb] = tv
+					}
+					rest = nb
+				}
+				c = &ast.BinaryExpr{X: ops[0], Op: c.Op, Y: rest}
+			}
+			if c.Op == token.LAND {
+				inner := &ast.ReturnStmt{Return: c.Y.Pos(), Results: []ast.Expr{ast.Unparen(c.Y)}}
+				out = append(out, unret([]ast.Stmt{&ast.IfStmt{If: r.Pos(), Cond: ast.Unparen(c.X), Body: &ast.BlockStmt{Lbrace: c.Y.Pos(), List: unret([]ast.Stmt{inner}), Rbrace: c.Y.End()}}})...)
+				out = append(out, &ast.ReturnStmt{Return: r.End(), Results: []ast.Expr{boolIdent("false", r.End())}})
+			} else {
+				out = append(out, &ast.IfStmt{If: r.Pos(), Cond: ast.Unparen(c.X), Body: &ast.BlockStmt{Lbrace: c.Y.Pos(), List: []ast.Stmt{&ast.ReturnStmt{Return: c.Y.Pos(), Results: []ast.Expr{boolIdent("true", c.Y.Pos())}}}, Rbrace: c.Y.End()}})
+				out = append(out, unret([]ast.Stmt{&ast.ReturnStmt{Return: c.Y.Pos(), Results: []ast.Expr{ast.Unparen(c.Y)}}})...)
+			}
+		}
+		return out
+	}
+	ast.Inspect(fd.Body, func(n ast.Node) bool {
+		switch x := n.(type) {
+		case *ast.BlockStmt:
+			x.List = unret(x.List)
+		case *ast.CaseClause:
+			x.Body = unret(x.Body)
+		case *ast.CommClause:
+			x.Body = unret(x.Body)
+		}
+		return true
+	})
 	var ifs []*ast.IfStmt
 	ast.Inspect(fd.Body, func(n ast.Node) bool {
 		if s, ok := n.(*ast.IfStmt); ok {
@@ -262,6 +346,12 @@ func condGenSource(p *GoProg) string {
 		seen := map[string]bool{}
 		var cs []string
 		ast.Inspect(fd.Body, func(x ast.Node) bool {
+			if r, ok := x.(*ast.ReturnStmt); ok && len(r.Results) == 1 && isCompound(r.Results[0]) != nil {
+				if str := p.Str(ast.Unparen(r.Results[0])); !seen[str] {
+					seen[str] = true
+					cs = append(cs, str)
+				}
+			}
 			if s, ok := x.(*ast.IfStmt); ok && isCompound(s.Cond) != nil {
 				// the condition and every compound operand of it
 				var add func(e ast.Expr)
